@@ -523,6 +523,24 @@ def _s6_concat_missing(program, res):
         res.ok("C05-S6", "Pandas concat returns a missing value when an operand is missing")
 
 
+def _s7_coalesce_missing_only(program, res):
+    """coalesce is documented to replace *missing* values.  PandasModelBase.bad_column_positions is "null, nan or infinite": using it (or isinf)
+    to decide which cells coalesce fills overwrites infinities, which SQL COALESCE and Polars keep"""
+    import ast as _ast
+    m = program.method("pandas_base", "PandasModelBase", "_coalesce", inherited=False)
+    res.analysed(m)
+    bc = program.method("pandas_base", "PandasModelBase", "bad_column_positions", inherited=False)
+    flags_inf = "isinf" in unparse(bc.node)
+    uses = [c for c in _ast.walk(m.node) if isinstance(c, _ast.Call) and isinstance(c.func, _ast.Attribute)
+            and (c.func.attr == "isinf" or (c.func.attr == "bad_column_positions" and flags_inf))]
+    if uses:
+        res.fail_at("C05-S7", m, "coalesce-treats-infinite-as-missing",
+                    f"_coalesce selects the cells to fill with `{unparse(uses[0])[:50]}`, which is true for +/-inf as well as for missing values: x.coalesce(y) / x %?% y / "
+                    f"coalesce_0() overwrite infinite cells on Pandas; SQLite and Polars keep them (documented: 'replace missing values')", uses[0])
+    else:
+        res.ok("C05-S7", "Pandas coalesce fills missing cells only (no test that also flags infinities)")
+
+
 def run(program, res, tier):
     res.rule("C05-S1", "every catalogued (method, backend) marked 'y' resolves to an implementation of the right meaning")
     res.rule("C05-S2", "three-valued truth tables of the SQL templates equal the documented null contracts")
@@ -549,5 +567,7 @@ def run(program, res, tier):
     _s5_if_else_missing(program, res)
     res.rule("C05-S6", "Pandas concat does not spell a missing operand as text")
     _s6_concat_missing(program, res)
+    res.rule("C05-S7", "Pandas coalesce replaces missing values only")
+    _s7_coalesce_missing_only(program, res)
     res.assumptions.append("SQLite/PostgreSQL built-in function lists and meaning vocabulary (sa/facts.py)")
     res.extra["sqlite_registered_functions"] = len(registered)
